@@ -373,9 +373,19 @@ func blindConventionRule(P *Program, R *Report) {
 		if st := fs["u"]; st != nil {
 			got = desc(st.Val)
 		}
-		R.decide(rule, kNewCB+":U-source", "the builder's commitment is userCommitment(pk, secret, vPrime, mUser)", strings.HasPrefix(got, "call:gabi.userCommitment(<gabikeys.PublicKey>,arg#2,call:common.RandomBigInt("), "got "+got, P.Pos(fn.Pos()))
+		if P.Func("gabi.userCommitment") != nil {
+			R.decide(rule, kNewCB+":U-source", "the builder's commitment is userCommitment(pk, secret, vPrime, mUser)", strings.HasPrefix(got, "call:gabi.userCommitment(<gabikeys.PublicKey>,arg#2,call:common.RandomBigInt("), "got "+got, P.Pos(fn.Pos()))
+		} else if st := fs["u"]; st != nil {
+			// the commitment is computed in the constructor itself: same dependences, in the constructor's terms
+			requireDeps(P, R, rule, kNewCB+":U", fn, []ssa.Value{st.Val}, 1, []depReq{
+				{"pk.S", is(pkD + ".S"), "S"}, {"vPrime", matches(`^call:common\.RandomBigInt\(.*\)#0$`), "blinding"}, {"pk.R[0]", is(pkD + ".R[0]"), "secret-key base"}, {"secret", is("arg#2"), "secret"},
+				{"pk.R[key]", is(pkD + ".R[rangekey(makemap)]"), "blind bases"}, {"msg[*]", is("makemap[*]"), "blind shares"}, {"pk.N", is(pkD + ".N"), "modulus"},
+			})
+		} else {
+			R.bad(rule, kNewCB+":U-source", "the builder's commitment is computed", "field u is not set", P.Pos(fn.Pos()))
+		}
 	}
-	if uc := mustFunc(P, R, rule, "gabi.userCommitment"); uc != nil {
+	if uc := P.Func("gabi.userCommitment"); uc != nil {
 		roots := []ssa.Value{}
 		for _, r := range returnsOf(uc) {
 			roots = append(roots, r.Results...)
